@@ -7,12 +7,16 @@
         final(self).version == old(self).version,
         // None: nothing was left; Some: the first of what was left, and the rest is still ahead
         r is None ==> rest(*old(self)).len() == 0 && rest(*final(self)).len() == 0,                         // @stops_only_when_nothing_is_left
-        r is Some ==> rest(*old(self)) == seq![(r->Some_0.1, *r->Some_0.2)] + rest(*final(self)),             // @yields_the_listing_in_order_nothing_skipped_nothing_twice
+        r is Some ==> rest(*old(self)).len() > 0 && rest(*old(self)).skip(1) =~= rest(*final(self))
+                && r->Some_0.1 == rest(*old(self))[0].1 && *r->Some_0.2 == rest(*old(self))[0].2,               // @yields_the_listing_in_order_nothing_skipped_nothing_twice
+        r is Some ==> r->Some_0.0@ == render(rest(*old(self))[0].0),                                          // @each_under_the_text_of_the_route_to_its_node
 //@ loop 0 invariant
             invariant iter_wf(*self), self.version == old(self).version,
                 rest(*self) == rest(*old(self)),        // @moving_between_nodes_loses_nothing_and_adds_nothing
 //@ loop 0 body_start
+            broadcast use ax_string_ext;
             let ghost mut before = *self;
+            proof { if mrem(self.method).len() > 0 { attach_step(route_of(self.path@), mrem(self.method)); } }
 //@ before "match self.path.last_mut()"
                     proof { before = *self; }
 //@ loop 0 body_end
@@ -23,7 +27,8 @@
                 if q.len() > 0 && prem(*q.last().1).len() == 0 && p =~= q.drop_last() {
                     lemma_ascend(q, self.version);
                 } else if q.len() > 0 && prem(*q.last().1).len() > 0 && p.len() == q.len() + 1 && p.drop_last().drop_last() =~= q.drop_last()
+                    && p.drop_last().last().0 == q.last().0 && p.last().0 == prem(*q.last().1)[0].0
                     && prem(*p.drop_last().last().1) == prem(*q.last().1).skip(1) && prem(*p.last().1) == children(prem(*q.last().1)[0].1) {
-                    lemma_descend(q, p, prem(*q.last().1)[0].1, self.version);
+                    lemma_descend(q, p, self.version);
                 }
             }
